@@ -82,7 +82,18 @@ type PP struct{}
 func (PP) Name() string { return "xpp" }
 func (PP) ReadRequest(c *UpConn) (uint32, error) {
 	for {
-		if len(c.Buf) >= bolt.RequestHeaderLen {
+		if len(c.Buf) >= bolt.ResponseHeaderLen && c.Buf[0] == bolt.ProtocolCode && c.Buf[1] == bolt.CmdTypeResponse {
+			// an answer to the upstream's own heartbeat
+			cl := int(binary.BigEndian.Uint16(c.Buf[12:14]))
+			hl := int(binary.BigEndian.Uint16(c.Buf[14:16]))
+			bl := int(binary.BigEndian.Uint32(c.Buf[16:20]))
+			total := bolt.ResponseHeaderLen + cl + hl + bl
+			if len(c.Buf) >= total {
+				c.Buf = c.Buf[total:]
+				c.Acks <- struct{}{}
+				continue
+			}
+		} else if len(c.Buf) >= bolt.RequestHeaderLen {
 			if c.Buf[0] != bolt.ProtocolCode {
 				return 0, fmt.Errorf("not bolt")
 			}
@@ -126,4 +137,149 @@ func (PP) Garbage() []byte {
 	b[0] = bolt.ProtocolCode
 	b[1] = 9 // unknown command type: undecodable
 	return b
+}
+
+// ---- multiplexing peers
+
+// MuxProto is a Proto whose connections carry many streams.
+type MuxProto interface {
+	Proto
+	GoAway(lastID uint32) []byte // announces that the connection goes away
+	Probe() []byte               // a frame the pool's side must acknowledge (proves earlier frames were handled)
+	RstStream(id uint32) []byte  // resets one stream (nil: the protocol has no such frame)
+}
+
+// MXName is the harness-registered multiplexing xprotocol: bolt wire format, heartbeat enabled.
+const MXName = "c09mx"
+
+type mxProtocol struct{ api.XProtocol }
+
+func (p mxProtocol) Name() api.ProtocolName { return MXName }
+func (p mxProtocol) PoolMode() api.PoolMode { return api.Multiplex }
+func (p mxProtocol) EnableWorkerPool() bool { return false }
+
+type MXCodec struct{ inner bolt.XCodec }
+
+func (c *MXCodec) ProtocolName() api.ProtocolName { return MXName }
+func (c *MXCodec) NewXProtocol(ctx context.Context) api.XProtocol {
+	return mxProtocol{c.inner.NewXProtocol(ctx)}
+}
+func (c *MXCodec) ProtocolMatch() api.ProtocolMatch { return nil }
+func (c *MXCodec) HTTPMapping() api.HTTPMapping     { return nil }
+
+func RegisterMX() (*MXCodec, error) {
+	c := &MXCodec{}
+	if err := xprotocol.RegisterXProtocolCodec(c); err != nil {
+		return nil, err
+	}
+	return c, nil
+}
+
+func boltControl(cmd uint16, id uint32) []byte {
+	g := make([]byte, bolt.RequestHeaderLen)
+	g[0] = bolt.ProtocolCode
+	g[1] = bolt.CmdTypeRequest
+	binary.BigEndian.PutUint16(g[2:4], cmd)
+	g[4] = bolt.ProtocolVersion
+	binary.BigEndian.PutUint32(g[5:9], id)
+	g[9] = bolt.Hessian2Serialize
+	return g
+}
+
+// MX is the upstream side of the multiplexing xprotocol.
+type MX struct{ PP }
+
+func (MX) Name() string            { return "xmux" }
+func (MX) GoAway(uint32) []byte    { return boltControl(bolt.CmdCodeGoAway, 0x7fffff00) }
+func (MX) Probe() []byte           { return boltControl(bolt.CmdCodeHeartbeat, 0x7fffff01) }
+func (MX) RstStream(uint32) []byte { return nil }
+
+// H2 is a raw-frame HTTP/2 server side (cleartext, prior knowledge).
+type H2 struct{}
+
+func h2frame(typ, flags byte, sid uint32, payload []byte) []byte {
+	b := make([]byte, 9+len(payload))
+	b[0], b[1], b[2] = byte(len(payload)>>16), byte(len(payload)>>8), byte(len(payload))
+	b[3], b[4] = typ, flags
+	binary.BigEndian.PutUint32(b[5:9], sid&0x7fffffff)
+	copy(b[9:], payload)
+	return b
+}
+
+const h2Preface = "PRI * HTTP/2.0\r\n\r\nSM\r\n\r\n"
+
+func (H2) Name() string { return "h2" }
+
+// ReadRequest answers the connection-level frames and returns at the end of a request's header block.
+func (H2) ReadRequest(c *UpConn) (uint32, error) {
+	need := func(n int) error {
+		for len(c.Buf) < n {
+			if err := readMore(c); err != nil {
+				return err
+			}
+		}
+		return nil
+	}
+	if !c.Hello {
+		if err := need(len(h2Preface)); err != nil {
+			return 0, err
+		}
+		if string(c.Buf[:len(h2Preface)]) != h2Preface {
+			return 0, fmt.Errorf("no HTTP/2 preface")
+		}
+		c.Buf = c.Buf[len(h2Preface):]
+		c.Hello = true
+		if err := c.Write(h2frame(4, 0, 0, nil)); err != nil { // SETTINGS
+			return 0, err
+		}
+	}
+	for {
+		if err := need(9); err != nil {
+			return 0, err
+		}
+		n := int(c.Buf[0])<<16 | int(c.Buf[1])<<8 | int(c.Buf[2])
+		typ, flags := c.Buf[3], c.Buf[4]
+		sid := binary.BigEndian.Uint32(c.Buf[5:9]) & 0x7fffffff
+		if err := need(9 + n); err != nil {
+			return 0, err
+		}
+		payload := append([]byte{}, c.Buf[9:9+n]...)
+		c.Buf = c.Buf[9+n:]
+		switch typ {
+		case 4: // SETTINGS
+			if flags&1 == 0 {
+				if err := c.Write(h2frame(4, 1, 0, nil)); err != nil {
+					return 0, err
+				}
+			}
+		case 6: // PING
+			if flags&1 == 0 {
+				if err := c.Write(h2frame(6, 1, 0, payload)); err != nil {
+					return 0, err
+				}
+			} else {
+				c.Acks <- struct{}{}
+			}
+		case 1, 9: // HEADERS / CONTINUATION: the request is complete at END_HEADERS (requests carry no body here)
+			if flags&4 != 0 {
+				return sid, nil
+			}
+		}
+	}
+}
+func (H2) Response(id uint32) []byte {
+	return h2frame(1, 0x4|0x1, id, []byte{0x88}) // HEADERS, END_HEADERS|END_STREAM, ":status: 200" (static table)
+}
+func (h H2) GoAwayResponse(id uint32) []byte { return append(h.GoAway(id), h.Response(id)...) }
+func (H2) Garbage() []byte                  { return h2frame(1, 0x4, 0, []byte{0xff}) } // HEADERS on stream 0: connection error
+func (H2) GoAway(last uint32) []byte {
+	p := make([]byte, 8)
+	binary.BigEndian.PutUint32(p[0:4], last)
+	return h2frame(7, 0, 0, p)
+}
+func (H2) Probe() []byte { return h2frame(6, 0, 0, []byte("c09probe")) }
+func (H2) RstStream(id uint32) []byte {
+	p := make([]byte, 4)
+	binary.BigEndian.PutUint32(p[0:4], 8) // CANCEL
+	return h2frame(3, 0, id, p)
 }
